@@ -37,13 +37,39 @@ CLAIMS = [
         "level_note": "NOT decided: general panic freedom of the several hundred invariant-justified unwrap/expect/index sites, "
                       "termination, that diagnostic locations lie inside the file. Capacity conversions (usize->u32) out of scope.",
     },
+    {
+        "id": "C15",
+        "technique": "static analysis: call-graph effect reachability from salsa-tracked functions, type facts of the session, HIR setter/guard rules",
+        "level_text": "Decides the proviso under which salsa's memoisation theorem applies: from every #[salsa::tracked] body (112 found) no "
+                      "call-graph path (trait and dyn calls fanned out to all workspace impls) reaches a file-system, environment, "
+                      "clock, random, lock, DashMap or atomic access except through three audited cut functions whose own bodies are "
+                      "checked (source_input reads the disk only on the Vacant registry edge, keyed by SourcePath::identity; identity "
+                      "never reads contents). Also decided: the path->input registry is Arc-shared with snapshots, no unclassified "
+                      "session state exists, each mutator writes exactly the input field(s) it is named after under a guard on that "
+                      "same field, and optional-companion probing reads only the tracked accessors.",
+        "level_note": "Trusted: salsa's revision/memo logic; callers announce disk changes via refresh_disk. NOT decided: equality of "
+                      "answers over concrete histories, lru=1 re-materialisation equality. Known finding F6 (intern_pending) is listed.",
+    },
+    {
+        "id": "C17",
+        "technique": "static analysis: global-state inventory, atomic RMW and who-may-construct facts from MIR, lock-order/lock-scope analysis of cajun's async fns on HIR, arm table of the cancellation match",
+        "level_text": "Decides structural necessary conditions of snapshot isolation: every interior-mutable static is audited (one: the "
+                      "key-space counter, touched by a single fetch_update/checked_add in KeySpaceId::fresh only); KeySpaceId and "
+                      "IdAllocator cannot be forged or copied (private fields, constructor inventory, no Clone/Copy, &mut alloc); "
+                      "mutable session state is Arc-shared with snapshots; in cajun every async fn takes session before projects, holds "
+                      "no guard across spawn_blocking, reads the revision before the snapshot and re-checks it under the session lock "
+                      "before publishing; AnalysisTask::run's cancellation table is exact.",
+        "level_note": "Interleavings are NOT explored (that is model checking / stress, a different family): absence of deadlock and of "
+                      "mixed-revision results is argued from lock order and scope only. Known finding F6 (pending slot, two critical "
+                      "sections) is listed.",
+    },
 ]
 
 _PENDING = "check not built yet in this round (static rule designed in DESIGN.md, implementation pending)"
 NOT_APPLICABLE = [
     {"property_id": "C20", "reason": "behavioural equation through a 2800-line type-directed translation; no clause is both visible in the shape of elaborate/monadic/* and a necessary condition of the equation (DESIGN.md C20)"},
 ] + [{"property_id": p, "reason": _PENDING} for p in
-     ["C01", "C02", "C03", "C04", "C05", "C06", "C07", "C08", "C09", "C12", "C13", "C14", "C15", "C17", "C18", "C19"]]
+     ["C01", "C02", "C03", "C04", "C05", "C06", "C07", "C08", "C09", "C12", "C13", "C14", "C18", "C19"]]
 
 NOTES = ("Static analysis only: every verdict is computed from /repo's current working tree by the zyq rustc driver "
          "(facts) and repository-specific rules; nothing executes zydeco. Exit 2 (no VIOLATION line) means the tree could not "
